@@ -104,12 +104,7 @@ def run(ctx):
         from ..core import poly as PL
         from . import equations as EQ
 
-        cand = {}
-        for s_ in ev.sites.values():
-            for a_ in s_.args:
-                for x in subterms(strip_sites(a_)):
-                    if x.op == "agg" and x.a[0][0] == "tuple" and len(x.a[1]) == 2 and any(y.op == "param" and y.a[1] == "sig" for c_ in x.a[1] for y in subterms(c_)):
-                        cand[x] = True
+        cand = F.closing_pair_candidates(P, ev)
         final = [x for x in cand if PL.named(PL.bilinear([tuple(x.a[1])], EQ.std_atom())) == {("G", "sig"): -1}]
         ctx.ob("E5.equation", fkc + "/final", len(final) == 1 and len(cand) == 1, "exactly one closing pair (sig, -G) (pairs mentioning sig: %d, of the form -(sig (x) G): %d)" % (len(cand), len(final)), where=where(c))
     for fk2 in ("<Bls12381G1Impl as Pairing>::pairing", "<Bls12381G2Impl as Pairing>::pairing"):
